@@ -85,6 +85,7 @@ def _post(rec):
 
 class C04(Prop):
     id = "C04"
+    tour_every = 5
     level = "exploration"
     technique = "runtime contract (icontract postcondition vs bitwise reference CRC) on exhaustive short strings, bit-flipped frames and random strings"
     rule = ("inputs: all byte strings of length 0..2 (exhaustive, disjoint over shards), every single-bit flip "
@@ -129,6 +130,13 @@ class C04(Prop):
         """Call the real (contract-wrapped) function twice; judge determinism here."""
         sign = self.tools.sign_packet_with_crc_key
         acc.ev()
+        self.ntouch = getattr(self, "ntouch", 0) + 1
+        if self.ntouch % 23 == 0 and len(hexstr) <= 64:
+            # an application does more with one string than sign it: it has passed through the library's other small functions
+            from .. import tour
+
+            tour.touch(hexstr)
+            acc.count("inputs_that_went_through_the_other_tools_first")
         try:
             r1 = sign(hexstr)
             r2 = sign(hexstr)
